@@ -51,7 +51,16 @@ def queries(ctx):
                 bounds="data source cgroup: cgroup file of 2 lines '<digit>:<4 bytes of controller list>:<2 bytes of path>', all bytes symbolic "
                        "(commas anywhere in the list, colons and digits in the path), argument of 1..4 symbolic bytes (number or name), the read may fail; "
                        "util/file.c's reader stubbed (its memory safety is C02's)"))
-    q = [x for x in qs if x.name == "ds_env_all"][0]
     import dataclasses
+    if ctx["tier"] == "thorough":
+        q = [x for x in qs if x.name == "ds_rpname"][0]
+        qs.append(dataclasses.replace(q, name="ds_rpname_depth3", defines=tuple(q.defines) + ("RP_DEPTH=3",), timeout=3000, mem_gb=16,
+                                      unwindset=("get_rpname:4", "read_proc_property.0:5", "strncpy.0:18", "v_format.3:44"),
+                                      bounds=q.bounds.replace("depth 1 or 2", "depth 1, 2 or 3")))
+        q = [x for x in qs if x.name == "ds_cgroup"][0]
+        qs.append(dataclasses.replace(q, name="ds_cgroup_3lines", defines=tuple(q.defines) + ("CG_NLINES=3",), unwind=33, timeout=3600, mem_gb=26,
+                                      unwindset=("v_format.3:44", "strnlen.0:26", "snoopy_util_string_findLineStartingWith.0:10", "strstr.0:7", "snoopy_datasource_cgroup.0:5", "doesCgroupEntryContainController.0:6"),
+                                      bounds=q.bounds.replace("2 lines", "3 lines")))
+    q = [x for x in qs if x.name == "ds_env_all"][0]
     qs.append(dataclasses.replace(q, name="ds_env_all_cleared", defines=tuple(q.defines) + ("ENV_NULL=1",), bounds="data source env_all with environ == NULL (process called clearenv())"))
     return qs
